@@ -209,3 +209,81 @@ Definition hw_x_gates (n k : nat) : list nat := map (fun j => n - 1 - j) (seq 0 
 (* strings of weight k as integers (text reversed = big-endian), rank in sorted order = data index *)
 Definition int_of_string (s : bits) : nat :=   (* int(''.join(string[::-1]), 2) *)
   fold_left (fun (acc : nat) (b : bool) => 2 * acc + (if b then 1 else 0)) (rev s) 0.
+
+(* ------------------------------------------------------------------ binary_encoder: gate skeletons *)
+(* codes: (0,[q]) = X(q);  (1, target :: sorted controls) = RY(target).controlled_by(controls) *)
+(* _binary_encoder_hopf: level lvl (target qubit lvl) has 2^lvl gates, one per value j of the qubits above;
+   qubits above holding 1 are controls, qubits above holding 0 and ALL qubits below are anticontrols
+   (X before and after) *)
+Definition hopf_gate (n lvl j : nat) : list (nat * list nat) :=
+  let up := bits_of_nat lvl j in
+  let anti := positions false 0 up ++ seq (S lvl) (n - S lvl) in
+  let ctrl := positions true 0 up in
+  map (fun q => (0, [q])) anti ++ [(1, lvl :: sort (ctrl ++ anti))] ++ map (fun q => (0, [q])) anti.
+Definition hopf_skeleton (n : nat) : list (nat * list nat) :=
+  flat_map (fun lvl => flat_map (hopf_gate n lvl) (seq 0 (2 ^ lvl))) (seq 0 n).
+
+(* _binary_encoder_hyperspherical (real data): RY(last); for weight w = 1..n-1 the Hamming-weight
+   encoder started at the current initial string (full_hwp, controls not optimised), then the
+   intermediate gate RY(index).controlled_by(ones of the last string of the block), where index is the
+   first 0 of the last string (text order = big-endian) if w is even and its last 0 if w is odd; the
+   next block starts from that string with position index set to 1.
+   codes: (2, in :: out :: sorted controls) = RBS(in, out).controlled_by(controls) *)
+Definition text_of (s : bits) : bits := rev s.        (* array (index 0 first) -> text / qubit order *)
+
+Fixpoint hyper_blocks (fuel : nat) (n w : nat) (init : bits) : option (list (nat * list nat)) :=
+  match fuel with
+  | O => Some []
+  | S f =>
+      match ehrlich init, hw_gates n w false init with
+      | Some (strs, _), Some gs =>
+          let lasttxt := text_of (last strs []) in
+          let controls := positions true 0 lasttxt in
+          let zeros := positions false 0 lasttxt in
+          match (if Nat.even w then hd_error zeros else last_opt zeros) with
+          | None => None
+          | Some index =>
+              let init' := rev (set_nth index true lasttxt) in
+              option_map (fun rest =>
+                            map (fun g : nat * nat * list nat => let '(a, b, cs) := g in (2, a :: b :: cs)) gs
+                            ++ [(1, index :: controls)] ++ rest)
+                         (hyper_blocks f n (S w) init')
+          end
+      | _, _ => None
+      end
+  end.
+
+Definition hyper_skeleton (n : nat) : option (list (nat * list nat)) :=
+  option_map (cons (1, [n - 1])) (hyper_blocks (n - 1) n 1 (true :: repeat false (n - 1))).
+
+(* ------------------------------------------------------------------ QFT: product-state semantics *)
+(* A register whose qubits are UNENTANGLED, each either a basis state |b> or
+   (|0> + e^{2 pi i num / 2^n} |1>)/sqrt2  (num is read modulo 2^n).  Textbook action of the gates on such
+   product states (None = the rule does not apply, e.g. a control that is not a basis state):
+     H |b>                      = (|0> + (-1)^b |1>)/sqrt2             : num = b 2^(n-1)
+     CU1(c,t,pi/2^k), |b_c>|phi> : the |1> component of t gets e^{i pi b_c / 2^k} : num += b_c 2^(n-1-k)
+     SWAP                       : exchanges the two qubit states *)
+Inductive qstate := QB (b : bool) | QP (num : nat).
+Definition qst := nat -> qstate.
+Definition b2n (b : bool) : nat := if b then 1 else 0.
+Definition upd (f : qst) (q : nat) (v : qstate) : qst := fun p => if Nat.eqb p q then v else f p.
+
+Definition pstep (n : nat) (f : qst) (g : qgate) : option qst :=
+  match g with
+  | QH q => match f q with QB b => Some (upd f q (QP (b2n b * 2 ^ (n - 1)))) | _ => None end
+  | QCU1 c t k =>
+      match f c, f t with
+      | QB bc, QP num => if k <? n then Some (upd f t (QP (num + b2n bc * 2 ^ (n - 1 - k)))) else None
+      | _, _ => None
+      end
+  | QSWAP a b => Some (upd (upd f a (f b)) b (f a))
+  end.
+
+Definition prun (n : nat) (gs : list qgate) (f : qst) : option qst :=
+  fold_left (fun o g => match o with Some s => pstep n s g | None => None end) gs (Some f).
+
+Definition qinit (x : bits) : qst := fun q => QB (nth q x false).
+
+(* 2^n times the binary fraction 0.x_q x_{q+1} ... x_{n-1} *)
+Definition qphase (n : nat) (x : bits) (q : nat) : nat :=
+  list_sum (map (fun c => b2n (nth c x false) * 2 ^ (n - 1 - (c - q))) (seq q (n - q))).
